@@ -64,6 +64,9 @@ def plainC (c : Char) : Bool :=
 
 def plainStr (s : Str) : Bool := s.all plainC
 
+/-- no CR / LF: what `Keyvalues.parse` demands of a key (`newline_keys=False`) -/
+def noNlStr (s : Str) : Bool := !(s.contains '\n' || s.contains '\r')
+
 /-- A numeric token: accepted by `float()`, non-empty, free of whitespace, brackets and of the
 characters `escape_text` would rewrite (numbers are written without escaping). -/
 def TokOK (t : Str) : Bool :=
@@ -568,7 +571,8 @@ re-joined by the reader). -/
 def OutOK (o : Out) : Bool :=
   nameOK o.instOut o.output && nameOK o.instIn o.input && TokOK o.delay &&
   [o.target, expIn o, o.params, o.delay].all (fun f => !f.contains '\x1b') &&
-  (!o.comma || [o.target, expIn o, o.delay].all (fun f => !f.contains ','))
+  (!o.comma || [o.target, expIn o, o.delay].all (fun f => !f.contains ',')) &&
+  noNlStr (expName o.instOut o.output)
 
 theorem projOut_eq (o : Out) : projOut o = { o with instOut := normInst o.instOut, instIn := normInst o.instIn } := by
   cases o with
@@ -578,7 +582,7 @@ theorem projOut_eq (o : Out) : projOut o = { o with instOut := normInst o.instOu
 theorem parseOut_export (o : Out) (h : OutOK o = true) : parseOut (exportOut o) = .ok (projOut o) := by
   simp only [OutOK, Bool.and_eq_true, List.all_cons, List.all_nil, Bool.and_true, Bool.not_eq_true',
     Bool.or_eq_true, List.contains_eq_mem, decide_eq_false_iff_not] at h
-  obtain ⟨⟨⟨⟨hn1, hn2⟩, hd⟩, ht1, hi1, hp1, hd1⟩, hcomma⟩ := h
+  obtain ⟨⟨⟨⟨⟨hn1, hn2⟩, hd⟩, ht1, hi1, hp1, hd1⟩, hcomma⟩, _hnl⟩ := h
   have hte : ('\x1b' : Char) ∉ showInt o.times := notMem_showInt _ _ (by decide) (by decide)
   have htc : (',' : Char) ∉ showInt o.times := notMem_showInt _ _ (by decide) (by decide)
   rw [projOut_eq]
@@ -2587,6 +2591,7 @@ theorem foldE_entEditor (w : Bool) (st : EntSt) (e : Ent) (hc : V3OK e.color = t
 structure EntOK1 (e : Ent) : Prop where
   idNonneg : 0 ≤ e.id
   keyNames : ∀ kv ∈ e.keys, KeyNameOK kv.1 = true
+  keyNl : ∀ kv ∈ e.keys, noNlStr kv.1 = true
   keysDistinct : KeysDistinct e.keys
   fixes : ∀ f ∈ e.fixup, FixOK f = true
   fixIds : (e.fixup.map (·.id)).Nodup
@@ -3241,8 +3246,38 @@ def rawRT (o : ExportOpts) (m : VMap) : VMap :=
 theorem keyNameOK_mapversion : KeyNameOK (lit "mapversion") = true := by decide
 theorem keyNameOK_classname : KeyNameOK (lit "classname") = true := by decide
 
+theorem go_mem_key (k v : Str) (l : List (Str × Str)) :
+    ∀ kv ∈ entSetKey.go k v l, ∃ kv' ∈ l, kv'.1 = kv.1 := by
+  induction l with
+  | nil => intro kv h; simp [entSetKey.go] at h
+  | cons a r ih =>
+    intro kv h
+    simp only [entSetKey.go] at h
+    split at h
+    · simp only [List.mem_cons] at h
+      rcases h with rfl | h
+      · exact ⟨a, by simp, rfl⟩
+      · exact ⟨kv, by simp [h], rfl⟩
+    · simp only [List.mem_cons] at h
+      rcases h with rfl | h
+      · exact ⟨kv, by simp, rfl⟩
+      · obtain ⟨kv', hm, e⟩ := ih kv h
+        exact ⟨kv', by simp [hm], e⟩
+
+/-- every key of the result is an old key (same spelling) or the new one -/
+theorem entSetKey_mem_key (ks : List (Str × Str)) (k v : Str) :
+    ∀ kv ∈ entSetKey ks k v, (∃ kv' ∈ ks, kv'.1 = kv.1) ∨ kv.1 = k := by
+  intro kv h
+  unfold entSetKey at h
+  split at h
+  · exact Or.inl (go_mem_key k v ks kv h)
+  · simp only [List.mem_append, List.mem_singleton] at h
+    rcases h with h | rfl
+    · exact Or.inl ⟨kv, h, rfl⟩
+    · exact Or.inr rfl
+
 theorem entOK1_spawnForExport (o : ExportOpts) (m : VMap) (h : EntOK1 m.spawn) : EntOK1 (spawnForExport o m) := by
-  refine { h with keyNames := ?_, keysDistinct := ?_ }
+  refine { h with keyNames := ?_, keyNl := ?_, keysDistinct := ?_ }
   · intro kv hkv
     simp only [spawnForExport] at hkv
     rcases entSetKey_mem _ _ _ kv hkv with h1 | ⟨h1, _⟩
@@ -3250,6 +3285,13 @@ theorem entOK1_spawnForExport (o : ExportOpts) (m : VMap) (h : EntOK1 m.spawn) :
       · exact h.keyNames kv h2
       · simp only [KeyNameOK, h2]; decide
     · simp only [KeyNameOK, h1]; decide
+  · intro kv hkv
+    simp only [spawnForExport] at hkv
+    rcases entSetKey_mem_key _ _ _ kv hkv with ⟨kv1, h1, e1⟩ | e1
+    · rcases entSetKey_mem_key _ _ _ kv1 h1 with ⟨kv2, h2, e2⟩ | e2
+      · rw [← e1, ← e2]; exact h.keyNl kv2 h2
+      · rw [← e1, e2]; decide
+    · rw [e1]; decide
   · simp only [spawnForExport]
     exact keysDistinct_entSetKey _ _ _ (keysDistinct_entSetKey _ _ _ h.keysDistinct)
 
